@@ -52,6 +52,8 @@ LEVEL_NOTE = "one table, two filter columns; trusts sqlite3 and the 40-line eval
 TECHNIQUE = "runtime monitoring: three-valued-logic reference evaluator + recording cursor proxy"
 
 INTS = [None, 0, 1, 2, 5, -3]
+# binary values (a scalar like any other: one placeholder, one bound value)
+BLOBS = [None, b"", b"a", b"ab", b"ab", b"\x00\xff", b"a'b", b"abc"]
 STRS = [None, "", "a", "ab", "A", "a%", "a_b", "x'y", "'; DROP TABLE t; --", '"q"', "abc", "1 OR 1=1", "%",
         "IS NULL", "is not null", "IN", "LIKE", "=", "NULL", "?", "%s"]
 HOSTILE = {"x'y", "'; DROP TABLE t; --", '"q"', "1 OR 1=1", "IS NULL", "is not null", "IN", "LIKE", "=", "NULL", "?",
@@ -228,13 +230,14 @@ def gen_cond(rng, depth=0):
         return ('static', rng.randrange(len(STATICS) if depth else N_TOP))
     if r < 0.28:
         return ('f', '_d', '=', rng.choice([0, 1, None]))
-    col = rng.choice(['n', 's'])
-    dom = INTS if col == 'n' else STRS
+    col = rng.choice(['n', 's', 'n', 's', 'b'])
+    dom = INTS if col == 'n' else STRS if col == 's' else BLOBS
     nn = [v for v in dom if v is not None]
     op = rng.choice(['=', '!=', '<', '>', '<=', '>=', 'IN', 'NOT IN', 'in', 'not in', 'IS NULL', 'IS NOT NULL',
                      'is null'] + (['LIKE', 'NOT LIKE', 'like'] if col == 's' else []))
     if op in ('=', '!=') and rng.random() < 0.05:
-        val = list(range(50, 50 + rng.choice([1000, 1001, 1200]))) if col == 'n' else ["w%d" % i for i in range(1001)]
+        val = list(range(50, 50 + rng.choice([1000, 1001, 1200]))) if col == 'n' else ["w%d" % i for i in range(1001)] \
+            if col == 's' else [b"w%d" % i for i in range(1001)]
         val = val + [v for v in dom if v is not None][:1]
     elif op in ('=', '!='):
         val = rng.choice([rng.choice(dom), rng.choice(dom),
@@ -245,7 +248,8 @@ def gen_cond(rng, depth=0):
         if rng.random() < 0.08:
             # a very long list (databases often limit the number of items: code may split it)
             n_items = rng.choice([999, 1000, 1001, 1500, 2001])
-            filler = list(range(100, 100 + n_items)) if col == 'n' else ["v%d" % i for i in range(n_items)]
+            filler = list(range(100, 100 + n_items)) if col == 'n' else ["v%d" % i for i in range(n_items)] \
+                if col == 's' else [b"v%d" % i for i in range(n_items)]
             keep = [v for v in val if v is not None][:2]
             val = rng.choice([list, tuple])(filler[:n_items - len(keep)] + keep)
             rng_pos = rng.randrange(len(val))
@@ -363,12 +367,14 @@ def run_case(ctx, rng):
     db = sqlite3.connect(":memory:")
     # (id is an ordinary column and the rows are stored in another order: a statement that lost its ORDER BY
     # does not give the requested order by accident)
-    db.execute("CREATE TABLE t (id INTEGER, n INTEGER, s TEXT, _d INTEGER)")
-    rows = [{'id': i, 'n': rng.choice(INTS), 's': rng.choice(STRS), '_d': rng.choice([0, 0, 1, None])}
+    # (b holds binary values; x__y is a column whose name has two underscores in the middle)
+    db.execute("CREATE TABLE t (id INTEGER, n INTEGER, s TEXT, _d INTEGER, b BLOB, x__y INTEGER)")
+    rows = [{'id': i, 'n': rng.choice(INTS), 's': rng.choice(STRS), '_d': rng.choice([0, 0, 1, None]),
+             'b': rng.choice(BLOBS), 'x__y': rng.choice([0, 1, 2, None])}
             for i in range(rng.randint(0, 12))]
     stored = list(rows)
     random.Random(len(rows) * 7 + sum(r['n'] or 0 for r in rows)).shuffle(stored)
-    db.executemany("INSERT INTO t VALUES (:id, :n, :s, :_d)", stored)
+    db.executemany("INSERT INTO t VALUES (:id, :n, :s, :_d, :b, :x__y)", stored)
     percent_s = rng.random() < 0.2
     conn = (MysqlLikeConn if percent_s else Conn)(db)
     conds = [gen_cond(rng) for _ in range(rng.choice([0, 1, 1, 2, 2, 3, 4]))]
@@ -389,6 +395,15 @@ def run_case(ctx, rng):
         v = rng.choice(STRS)
         kw['s'] = v
         kw_conds.append(('f', 's', '=', v))
+    if rng.random() < 0.12:
+        v = rng.choice([0, 1, 2, None, [0, 2]])
+        kw['x__y'] = v
+        kw_conds.append(('f', 'x__y', '=', v))
+        ctx.count("keyword_filters_on_a_column_with_two_underscores")
+    if rng.random() < 0.12:
+        v = rng.choice(BLOBS)
+        kw['b'] = v
+        kw_conds.append(('f', 'b', '=', v))
     if rng.random() < 0.15:
         v = rng.choice([0, 1])
         kw['_d'] = v           # a column whose name starts with an underscore, like the method's own options
